@@ -23,6 +23,9 @@ import (
 	"context"
 	"errors"
 	"strings"
+	"unicode/utf8"
+
+	"entgo.io/ent/dialect/sql"
 
 	"google.golang.org/grpc"
 
@@ -44,6 +47,23 @@ func projectSubscriptionPrefix(project string) string {
 
 func projectSnapshotPrefix(project string) string {
 	return project + "/snapshots/"
+}
+
+// nameHasExactPrefix complements the generated NameHasPrefix predicates, which
+// compile to LIKE: SQLite's LIKE ignores ASCII case, so a listing for project
+// "foo" would also return the resources of project "FOO". Comparing the
+// leading characters with = is case-sensitive on every supported dialect.
+func nameHasExactPrefix(column, prefix string) func(*sql.Selector) {
+	return func(s *sql.Selector) {
+		s.Where(sql.P(func(b *sql.Builder) {
+			b.WriteString("substr(").
+				Ident(s.C(column)).
+				WriteString(", 1, ").
+				Arg(utf8.RuneCountInString(prefix)).
+				WriteString(") = ").
+				Arg(prefix)
+		}))
+	}
 }
 
 func isValidTopicName(name string) bool {
